@@ -51,8 +51,12 @@ PROPS = {
              "differential vs Spec.San.write / Spec.San.denotes (declarative spellings)", "§6 C09", 0.6, 1.0),
     "C10": P("exploration", "none yet", ["uci_text_roundtrip", "uci_semilegal_iff"],
              "differential: all 20,481 UCI strings × sampled positions vs existence in Spec move sets", "§6 C10", 0.5),
-    "C11": P("exploration", "none yet", ["validate_ok_iff", "validate_normalises"],
-             "differential vs Spec.ValidRaw / Spec.normalise / Spec.Holds on raw boards of every rejection family", "§6 C11"),
+    "C11": P("proof", "validate_ok_iff: conversion succeeds exactly when Spec.ValidRaw holds (one king and ≤16 men each, no pawn on a "
+             "back rank, en-passant mark on the right rank, side not to move not in check); validate_err_sound: the reported reason "
+             "holds; validate_ok: the result is Spec.normalise of the input (only unbacked rights / marks dropped) with consistent "
+             "derived state; validate_idem; validate_no_trap",
+             [], "Lean 4 theorems over all raw boards (uses C16 for the king-attack gate, kernel-decided facts on extracted masks/thresholds)",
+             "§6 C11"),
     "C12": P("exploration", "none yet", ["P_total for the eight parsers"],
              "byte-level Impl model of all parsers with explicit trap results, differential incl. exhaustive short strings and multi-byte UTF-8; panics observed under catch_unwind",
              "§6 C12", 1.0),
@@ -65,8 +69,12 @@ PROPS = {
              "strictly-between tables for all 4096 pairs", [],
              "Lean 4 theorems over tables regenerated from the build under test (decide +kernel over 107,648 submask cases + lifting lemmas)",
              "§6 C15"),
-    "C16": P("exploration", "none yet", ["is_cell_attacked_iff", "cell_attackers_eq"],
-             "differential vs Spec.attackers on every square and both colours", "§6 C16"),
+    "C16": P("proof", "cell_attackers_exact / is_cell_attacked_iff: for every consistent board (in particular every board from the "
+             "validation gate), every square and colour, the attackers set contains exactly the men of that colour whose capturing "
+             "pattern reaches the square (pawn diagonals, knight/king steps, slider ray walks up to the first occupied square); "
+             "king_pos, is_check and checkers follow",
+             [], "Lean 4 theorems: table exactness (C15) + ray symmetry decided over all squares + set-membership characterisation of the stored piece sets",
+             "§6 C16"),
     "C17": P("exploration", "none yet", ["WalkerInv", "styled_list_eq"],
              "differential: walker op strings, uci list rebuild, 18 renderings vs Spec.render / replay", "§6 C17"),
     "C18": P("exploration", "none yet", ["legal_mirrorV on Spec"],
